@@ -12,6 +12,10 @@ VERIF = os.path.dirname(os.path.dirname(os.path.abspath(__file__)))
 DISCHARGED, VIOLATED, INCONCLUSIVE = 'discharged', 'violated', 'inconclusive'
 
 
+# rules that report a construct that is present and forbidden (who-may-write, entropy sources, constants, information flow): never gated
+FIRM_RULES = {'R2', 'R8', 'R10', 'R17'}
+
+
 class Obligation:
     def __init__(self, oid, rule, site, construct, status, why, inspected=1):
         self.oid, self.rule, self.site, self.construct, self.status, self.why, self.inspected = oid, rule, site, construct, status, why, inspected
@@ -43,12 +47,21 @@ class Check:
         self.extra: dict = {}
         self.t0 = time.time()
         self.errors: list[str] = []
+        self.gate = None            # callable(site) -> set of new vocabulary of the function at that site
+        self.firm = False           # property-wide: violations are decided positively (no vocabulary gate)
 
     # -- recording ------------------------------------------------------------
     def ok(self, oid, rule, site, construct, why='', inspected=1):
         self.obs.append(Obligation(oid, rule, site, construct, DISCHARGED, why, inspected))
 
-    def bad(self, oid, rule, site, construct, why):
+    def bad(self, oid, rule, site, construct, why, soft=False):
+        # rules written as shape recognisers abstain when the function they look at applies operations it did not apply in the
+        # tree the rules were confirmed on (an unknown spelling); rules that decide violations positively pass firm=True
+        if self.gate is not None and soft and rule not in FIRM_RULES:
+            new = self.gate(site)
+            if new:
+                self.obs.append(Obligation(oid, rule, site, construct, INCONCLUSIVE, f'not decided: the function applies operations outside the vocabulary this rule was confirmed on ({", ".join(sorted(new))[:120]}); the rule would otherwise report: {why}'))
+                return
         self.obs.append(Obligation(oid, rule, site, construct, VIOLATED, why))
 
     def unsure(self, oid, rule, site, construct, why):
@@ -65,11 +78,13 @@ class Check:
         else:
             self.unsure(oid, rule, site, construct, 'the expression uses operations outside the vocabulary of the accepted forms; ' + (why_bad or why_ok))
 
-    def expect(self, cond, oid, rule, site, construct, why_ok='', why_bad='', inspected=1):
+    def expect(self, cond, oid, rule, site, construct, why_ok='', why_bad='', inspected=1, soft=False):
+        """soft=True: the obligation is a shape recogniser ("the expected construct was not found"); when the function at `site` applies
+        operations it did not apply in the tree the rule was confirmed on, a failure is reported as inconclusive instead of violated"""
         if cond:
             self.ok(oid, rule, site, construct, why_ok, inspected)
         else:
-            self.bad(oid, rule, site, construct, why_bad or why_ok)
+            self.bad(oid, rule, site, construct, why_bad or why_ok, soft=soft)
         return cond
 
     def note(self, text):
